@@ -7,7 +7,7 @@ import sys
 import time
 
 VERIF = os.path.dirname(os.path.dirname(os.path.abspath(__file__)))
-EVID = os.path.join(VERIF, 'evidence')
+EVID = os.environ.get('VERIF_EVIDENCE_DIR') or os.path.join(VERIF, 'evidence')   # override: scratch runs of the self-tests
 REPLAY = os.path.join(EVID, 'replay')
 KNOWN = os.path.join(VERIF, 'known_findings.json')
 
